@@ -63,8 +63,11 @@ def _signature(f: FunctionInfo) -> Dict[str, Any]:
     return out
 
 
+_NOT_BEHAVIOUR = {"__repr__", "__doc__", "__slots__", "__annotations__", "__module__", "__qualname__", "__init_subclass__", "__class_getitem__", "__match_args__", "__dict__", "__weakref__"}
+
+
 def snapshot(p: Program) -> Dict[str, Any]:
-    snap: Dict[str, Any] = {"signatures": {}, "constants": {}, "enums": {}, "bases": {}, "class_constants": {}}
+    snap: Dict[str, Any] = {"signatures": {}, "constants": {}, "enums": {}, "bases": {}, "class_constants": {}, "dunders": {}}
     for f in p.nontest_functions():
         if f.parent is not None:
             continue
@@ -86,6 +89,10 @@ def snapshot(p: Program) -> Dict[str, Any]:
     for ci in p.nontest_classes():
         bases = [b.fq if isinstance(b, ClassInfo) else getattr(b, "name", str(b)) for b in ci.bases]
         snap["bases"][ci.fq] = bases
+        # the special methods a class defines itself (methods and class-level assignments such as `__hash__ = None`): comparison, hashing,
+        # arithmetic, conversion, container and construction protocol.  Presentation only (__repr__) and bookkeeping names are left out.
+        own = set(ci.methods) | set(ci.assigns)
+        snap["dunders"][ci.fq] = sorted(n for n in own if n.startswith("__") and n.endswith("__") and n not in _NOT_BEHAVIOUR)
         if any(isinstance(b, External) and b.name.startswith("enum.") for b in p.mro(ci)):
             snap["enums"][ci.fq] = [[k, _ser(v.value)] for k, v in p.enum_members(ci).items()]
         else:
@@ -146,7 +153,7 @@ def surface(ctx: Ctx, what: str, modules: Iterable[str] = (), functions: Iterabl
         modname = key.split(":")[0] if ":" in key else key.rsplit(".", 1)[0]
         if kind == "signatures":
             return key in functions or modname in modules
-        if kind in ("bases", "enums", "blanks"):
+        if kind in ("bases", "enums", "blanks", "dunders"):
             return key in classes or modname in modules
         if kind == "class_constants":
             return modname in classes or modname.rsplit(".", 1)[0] in modules or any(key.startswith(c + ".") for c in classes)
@@ -155,7 +162,7 @@ def surface(ctx: Ctx, what: str, modules: Iterable[str] = (), functions: Iterabl
     # constants that have their own semantic rule (regular expressions compared after normalisation) are not compared as raw values
     exempt = {"simfile.assets.ASSET_DEFINITIONS"}
     n = 0
-    for kind, label in (("signatures", "signature"), ("constants", "constant"), ("class_constants", "class constant"), ("enums", "enumeration"), ("bases", "base classes"), ("blanks", "blank template")):
+    for kind, label in (("signatures", "signature"), ("constants", "constant"), ("class_constants", "class constant"), ("enums", "enumeration"), ("bases", "base classes"), ("dunders", "special methods defined by"), ("blanks", "blank template")):
         for key, want in base.get(kind, {}).items():
             if not in_scope(key, kind) or key in exempt:
                 continue
@@ -193,6 +200,10 @@ def _diff(kind: str, key: str, want: Any, got: Any) -> str:
         if not changes:
             return f"signature differs only by added optional parameters: {gp}"
         return "; ".join(changes)
+    if kind == "dunders":
+        added, gone = sorted(set(got) - set(want)), sorted(set(want) - set(got))
+        return ((f"now also defines {added}" if added else "") + ("; " if added and gone else "") + (f"no longer defines {gone}" if gone else "") +
+                ": the class's comparison / hashing / arithmetic / conversion / container behaviour is no longer the confirmed one (inherited or own), which the clauses of this property take as given")
     return f"now {json.dumps(got)[:240]} - confirmed {json.dumps(want)[:240]}"
 
 
